@@ -18,9 +18,19 @@ package constant
 //@   modifies nothing
 //@   ensures result == rate
 //@
+//@ // C12/C13 (wiring): the jitter is applied to the underlying rate and the result is what gets distributed over the
+//@ // sub-ticks (jittering each sub-tick separately would break the per-cycle sum and the evenness); the distributed
+//@ // function is what the trigger uses
+//@ ghost var GCjittered int
+//@ ghost var GCdistributed int
 //@ func CalculateConstantRate
-//@   props C14
+//@   props C14 C12 C13
+//@   ghost at entry : GCjittered = 0 ; GCdistributed = 0
+//@   ghost after call WithJitter : GCjittered = ret0
+//@   assert before call NewDistribution : {C12,C13} [the-jittered-rate-is-what-is-distributed] arg2 == GCjittered
+//@   ghost after call NewDistribution : GCdistributed = ret1
+//@   ensures {C12,C13} [the-distributed-rate-is-what-the-trigger-uses] result.1 == nil ==> result.0.Rate == GCdistributed
 //@   requires GJclaim == 1 ==> (jitterArg == 0.0 || (jitterConsts(jitterArg) && GJin == GJout))
-//@   modifies G12R, G12E
+//@   modifies G12R, G12E, GCjittered, GCdistributed
 //@   ensures [runnable] result.1 == nil ==> result.0 != nil && result.0.Rate != nil && result.0.IterationDuration > 0
 //@   ensures [rejected] result.1 != nil ==> result.0 == nil
